@@ -115,8 +115,18 @@ def edit_and_resolve(s, cases, rng, rail_rep, kw):
             kids.setdefault(p, []).append(c["name"])
     leaves = [n for n, c in comps.items() if c["par"] and n not in kids and c["cls"] != "PMux"]
     hosts = [n for n, c in comps.items() if c["cls"] not in ("PLoad", "ILoad", "RLoad")]
+    muxin = [(m, x) for m, c in comps.items() if c["cls"] == "PMux" and len(c["par"]) > 1
+             for x in c["par"] if comps[x]["par"]]
+    edit = None
     try:
-        if leaves and rng.random() < 0.7:
+        if muxin and rng.random() < 0.6:
+            # remove an intermediate component that is a mux input: the mux must keep its input order, with the removed
+            # component's parent in its place (SysTree!DelCompEff)
+            m, x = rng.choice(muxin)
+            edit = {"op": "del_comp", "args": {"target": x, "delchilds": False}, "pre": st}
+            s.del_comp(x, del_childs=False)
+            what = "removed mux input %s (children kept)" % x
+        elif leaves and rng.random() < 0.7:
             n = rng.choice(leaves)
             cand = [h for h in hosts if h != n and h not in comps[n]["par"]]
             if not cand:
@@ -142,6 +152,8 @@ def edit_and_resolve(s, cases, rng, rail_rep, kw):
         return
     c = drv_solve.solve_case(s, len(cases), rail_rep=rail_rep, **kw)
     c["after_edit"] = what
+    if edit:
+        c["edit"], c["hasedit"] = edit, True
     cases.append(c)
 
 
@@ -250,12 +262,22 @@ def run_c06(ctx):
                 gen_kw=dict(neg=0.1, tables=0.15), case_kw=std_case_kw, filt=has_phases, post=c06_post, matrix=(250, 2000))
 
 
+def c07_post(s, cases, rng):
+    """one phase solved on its own with energy=True: its 24 h energy is still power x the phase's share of the whole
+    cycle (all declared phases), and Domain / Subsystem / total rows obey the same relations"""
+    base = cases[-1]
+    phs = [p["name"] for p in base["st"]["sysph"]]
+    if base["outcome"] != "ok" or not phs:
+        return
+    cases.append(drv_solve.solve_case(s, len(cases), phase=rng.choice(phs), energy=True, ta=25.0))
+
+
 def run_c07(ctx):
     return _run(ctx, "C07", 150, 3000,
                 "multi-source and single-source systems, with and without mux and phases, energy=True in half of the cases; "
                 "Domain column, Subsystem, System total, System average and energy cells are recomputed from the component rows",
                 gen_kw=dict(neg=0.15, zero_src=0.15, tables=0.1),
-                case_kw=lambda rng, s: dict(ta=25.0, energy=rng.random() < 0.7, rail_rep=False))
+                case_kw=lambda rng, s: dict(ta=25.0, energy=rng.random() < 0.7, rail_rep=False), post=c07_post)
 
 
 def has_rails(sysst):
@@ -461,7 +483,13 @@ def run_c03(ctx):
         c["tag"] = tag
         got = tap.take()
         c["sweeps"] = len(got[-1]["sweeps"]) if got else 0
-        for run in got:
+        for j, run in enumerate(got):
+            # the loop is judged against the settings the CALLER of solve() requested (defaults of solve()), not against
+            # what the inner routine happened to receive; the outcome of the last run is the outcome of the call
+            run["inner_args"] = run["args"]
+            run["args"] = {"vtol": _cell(kw.get("vtol", 1e-6)), "itol": _cell(kw.get("itol", 1e-6)), "maxiter": int(kw.get("maxiter", 10000))}
+            if j == len(got) - 1 and c["outcome"] == "exc" and run["end"] is not None:
+                run["end"] = dict(run["end"], kind="raise", exc=c["exc"])
             run["id"] = len(runs)
             run["case"] = c["id"]
             run["has_table"] = c["outcome"] == "ok"
